@@ -964,6 +964,32 @@ func (e *Engine) builtin(st *State, name string, args []Value, c *ssa.CallCommon
 			ret(st, nil)
 			return true
 		}
+		if sl, ok := args[0].(SliceVal); ok {
+			if sl.Obj == 0 {
+				ret(st, nil)
+				return true
+			}
+			if !sl.Off.K || !sl.Len.K {
+				unsup("clear of a slice with symbolic bounds")
+			}
+			off, ln := int(sl.Off.I.Int64()), int(sl.Len.I.Int64())
+			switch b := e.backing(st, sl.Obj).(type) {
+			case SymArrVal:
+				if b.C == nil {
+					unsup("clear of an SMT array")
+				}
+				c := append([]*Term(nil), b.C...)
+				for i := off; i < off+ln; i++ {
+					c[i] = KInt64(0)
+				}
+				b.C = c
+				b.FromStr = nil
+				st.heap[sl.Obj] = &Obj{V: b, T: st.heap[sl.Obj].T}
+				ret(st, nil)
+				return true
+			}
+			unsup("clear of a slice over %s", describe(e.backing(st, sl.Obj)))
+		}
 	}
 	unsup("builtin %s", name)
 	return false
